@@ -16,7 +16,7 @@ use crate::engine::Tier;
 use crate::scenario::{Op, Report, Scenario};
 use crate::simterm::SimTerm;
 
-const WIDTHS: [usize; 6] = [0, 1, 2, 4, 8, 13];
+const WIDTHS: [usize; 8] = [0, 1, 2, 4, 8, 13, 33, 70];
 
 fn expand(s: &str, w: usize) -> String {
     s.replace('\t', &" ".repeat(w))
@@ -30,7 +30,7 @@ pub fn exec_sched(sc: &Scenario) -> Report {
         let sc = sc2;
         let mut r = Report::default();
         sched::name_current_thread("user-0");
-        let term = SimTerm::new(200, 20);
+        let term = SimTerm::new(3000, 20);
         let pb = ProgressBar::with_draw_target(Some(10), ProgressDrawTarget::term_like(Box::new(term.clone())));
         pb.set_style(ProgressStyle::with_template("{prefix}|{msg}|{pos}").unwrap());
         let (mut last_msg, mut last_prefix, mut last_w) = (String::new(), String::new(), 8usize);
@@ -123,7 +123,7 @@ pub fn gen_sched(rng: &mut Rng, tier: Tier) -> Scenario {
     }
     let mut b = vec![];
     for _ in 0..rng.range(1, n) {
-        b.push(if rng.chance(1, 5) { Op::new("yield") } else { Op::new("set_tab_width").n(rng.below(6)) });
+        b.push(if rng.chance(1, 5) { Op::new("yield") } else { Op::new("set_tab_width").n(rng.below(8)) });
     }
     let mut threads = vec![a, b];
     if rng.chance(1, 2) {
